@@ -41,6 +41,7 @@ type report struct {
 	ChanOps      []string `json:"chan_ops"`
 	Selects      []string `json:"selects"`
 	RangeOverMap int      `json:"range_stmts"`
+	RecvRewritten int     `json:"chan_receives_rewritten"`
 }
 
 func main() {
@@ -101,6 +102,7 @@ func main() {
 		var stack []string
 		var litCount []int
 		var visit func(n ast.Node) bool
+		recv2 := map[*ast.UnaryExpr]bool{}
 		addSite := func(name string, body *ast.BlockStmt) {
 			id := len(sites)
 			line := tf.Line(body.Lbrace)
@@ -142,12 +144,42 @@ func main() {
 				rep.GoStmts = append(rep.GoStmts, fmt.Sprintf("%s:%d", rel, tf.Line(x.Pos())))
 			case *ast.SendStmt:
 				rep.ChanOps = append(rep.ChanOps, fmt.Sprintf("%s:%d", rel, tf.Line(x.Pos())))
+			case *ast.AssignStmt:
+				// v, ok := <-ch
+				if len(x.Lhs) == 2 && len(x.Rhs) == 1 {
+					if u, ok := x.Rhs[0].(*ast.UnaryExpr); ok && u.Op == token.ARROW {
+						recv2[u] = true
+					}
+				}
+			case *ast.ValueSpec:
+				if len(x.Names) == 2 && len(x.Values) == 1 {
+					if u, ok := x.Values[0].(*ast.UnaryExpr); ok && u.Op == token.ARROW {
+						recv2[u] = true
+					}
+				}
 			case *ast.UnaryExpr:
 				if x.Op == token.ARROW {
 					rep.ChanOps = append(rep.ChanOps, fmt.Sprintf("%s:%d", rel, tf.Line(x.Pos())))
+					// a receive becomes a polling receive under the scheduler
+					fn := "zzsim.Recv("
+					if recv2[x] {
+						fn = "zzsim.Recv2("
+					}
+					edits = append(edits, edit{off: off(x.OpPos), del: 2, text: fn})
+					edits = append(edits, edit{off: off(x.X.End()), text: ")"})
+					rep.RecvRewritten++
 				}
 			case *ast.SelectStmt:
 				rep.Selects = append(rep.Selects, fmt.Sprintf("%s:%d", rel, tf.Line(x.Pos())))
+				// the communication clauses stay as they are; their bodies are walked
+				for _, cl := range x.Body.List {
+					if cc, ok := cl.(*ast.CommClause); ok {
+						for _, st := range cc.Body {
+							ast.Inspect(st, visit)
+						}
+					}
+				}
+				return false
 			case *ast.RangeStmt:
 				rep.RangeOverMap++
 			}
